@@ -14,7 +14,9 @@ Open Scope string_scope.
    Proved part: every term of the fragment [wfp Sg [] t] - EVERY operator except Pow (refuted),
    with: constructor arities, constants in range, good symbol names declared in Sg, string
    constants printable ASCII without backslash (open finding), array values assigned at pairwise
-   distinct Bool/Int/BV/String constants, and the arguments of Iff / extract / rotate / extend
+   distinct Bool/Int/BV/String constants and whose printed sort reads back with the SAME index
+   sort (core/Sem.v's array values are canonical outside their index sort, so `as const` must
+   be read at that sort; excludes e.g. a declared sort printed as "Bool"), and the arguments of Iff / extract / rotate / extend
    typed by tc and inside C01's fragment okt - every signature, every well-formed
    interpretation, any nesting of binders. *)
 Theorem C07_print_tree_sound_partial : forall Sg I t,
